@@ -1,6 +1,6 @@
 #!/bin/bash
 # usage: seeded_run.sh <patch> <ID...>   applies the patch to /repo, runs the quick checks named, restores /repo
-P=$1; shift
+P=$(readlink -f $1); shift
 cd /repo && git apply $P || { echo "PATCH DOES NOT APPLY to /repo"; exit 2; }
 cd /verif
 for id in "$@"; do
